@@ -293,7 +293,7 @@ def env_variables(rng, doc):
     e = pick(rng, envs(doc))
     if e is None:
         return False
-    e["variables"] = rng.choice([{}, {"1x": "v"}, {"x" * 256: "v"}, {"x" * 257: "v"}, {"A": "v" * 2048}, {"A": "v" * 2049}, {"A-B": "v"}, {"A": 5}, {"A": ""}, {"": "v"}, "", [], {"A": "{{Param.Nope}}"}])
+    e["variables"] = rng.choice([{}, {"1x": "v"}, {"x" * 256: "v"}, {"x" * 257: "v"}, {"A": "v" * 2048}, {"A": "v" * 2049}, {"A-B": "v"}, {"A": 5}, {"A": ""}, {"": "v"}, "", [], {"A": "{{Param.Nope}}"}, [["A", "b"]], ["Ab", "Cd"], [["A", "b"], ["A", "c"]], "Ab"])
     return True
 
 
